@@ -12,8 +12,8 @@ Local Open Scope Z_scope.
 Section SortFacts.
   Context {A : Type} (less : A -> A -> bool).
   Definition le_of (a b : A) : Prop := less b a = false.
-  Hypothesis asym : forall a b, less a b = true -> less b a = false.
-  Hypothesis ntrans : forall a b c, less b a = false -> less c b = false -> less c a = false.
+  Context (asym : forall a b, less a b = true -> less b a = false)
+          (ntrans : forall a b c, less b a = false -> less c b = false -> less c a = false).
 
   Lemma insert_perm x l : Permutation (insert less x l) (x :: l).
   Proof.
